@@ -97,3 +97,45 @@ Definition f64_is_finite (b : Z) : bool := negb (f64_exp b =? 2047).
 Definition f64_finite_pos (b : Z) : bool :=
   (f64_sign b =? 0) && negb (b =? 0) && f64_is_finite b.
 Definition f64_one : Z := 4607182418800017408. (* 0x3FF0000000000000 *)
+
+(* Compact literals for the case files: a byte string is written as ONE hexadecimal numeral
+   with a leading 1 sentinel, e.g. "ab" = s_ 0x16162.  (A list literal of N numerals costs
+   ~100x more to parse and elaborate.) *)
+Local Open Scope N_scope.
+Fixpoint pos_bits (p : positive) : list bool :=
+  match p with
+  | xH => []
+  | xO q => false :: pos_bits q
+  | xI q => true :: pos_bits q
+  end.
+Definition bit (b : bool) (w : N) : N := if b then w else 0.
+Fixpoint group8 (acc : str) (l : list bool) : str :=
+  match l with
+  | b0 :: b1 :: b2 :: b3 :: b4 :: b5 :: b6 :: b7 :: r =>
+      group8 ((bit b0 1 + bit b1 2 + bit b2 4 + bit b3 8 + bit b4 16 + bit b5 32 + bit b6 64 + bit b7 128) :: acc) r
+  | _ => acc
+  end.
+Definition s_ (n : N) : str :=
+  match n with
+  | N0 => []
+  | Npos p => group8 [] (pos_bits p)
+  end.
+
+(* Faster literals (about 8x): primitive 63-bit integers are parsed natively.  A string is a
+   list of chunks, each chunk = up to 7 bytes, big-endian, under a leading 0x01 sentinel byte. *)
+From Coq Require Uint63.
+From Coq Require Export PrimInt63.
+Export PrimInt63.PrimInt63Notations.
+Definition int_to_N (i : Uint63.int) : N := Z.to_N (Uint63.to_Z i).
+Definition s1 (i : Uint63.int) : str := s_ (int_to_N i).
+Definition sp (l : list Uint63.int) : str := concat (map s1 l).
+(* integers: non-negative, negative, and 64-bit patterns as two 32-bit halves *)
+Definition zi (i : Uint63.int) : Z := Uint63.to_Z i.
+Definition zn (i : Uint63.int) : Z := (- Uint63.to_Z i)%Z.
+Definition zw (hi lo : Uint63.int) : Z := (Uint63.to_Z hi * 4294967296 + Uint63.to_Z lo)%Z.
+Definition ni (i : Uint63.int) : N := int_to_N i.
+Arguments s1 i%uint63.
+Arguments zi i%uint63.
+Arguments zn i%uint63.
+Arguments zw (hi lo)%uint63.
+Arguments ni i%uint63.
